@@ -196,6 +196,10 @@ func randVal(r *rand.Rand, bits int) int64 {
 // Run is the C05 correspondence and oracle run.
 func Run(c *core.Ctx) int {
 	var cases []tcase
+	var rc tcase
+	if c.ReplayCase(&rc) {
+		return runCases(c, []tcase{rc})
+	}
 	// (i) exhaustive grid
 	V, E := int64(12), uint32(3)
 	if c.Thorough() {
@@ -300,6 +304,10 @@ func Run(c *core.Ctx) int {
 		cases = append(cases, t)
 	}
 
+	return runCases(c, cases)
+}
+
+func runCases(c *core.Ctx, cases []tcase) int {
 	reqs := make([]string, len(cases))
 	for i, t := range cases {
 		reqs[i] = t.req()
